@@ -96,6 +96,18 @@ def run(ctx):
         if r.returncode != 2: viol.append(dict(why='directory not skipped with a warning (exit %d)' % r.returncode, stderr=''))
         os.mkfifo(os.path.join(d, 'fifo')); r = subprocess.run([xz, 'fifo'], cwd=d, capture_output=True, stdin=subprocess.DEVNULL, timeout=20); n_eval += 1
         if os.path.exists(os.path.join(d, 'fifo.xz')) or r.returncode != 2: viol.append(dict(why='FIFO source produced a file (exit %d)' % r.returncode, stderr=''))
+        # never a file from a non-regular source, whatever other options are given (only --stdout reads such sources)
+        for fargs, tname in ((['-k'], 'fifo.xz'), (['-f'], 'fifo.xz'), (['-kf'], 'fifo.xz'), (['-dk', '--suffix=o'], 'fif'), (['-z', '-T2', '-k'], 'fifo.xz'), (['--format=lzma', '-k'], 'fifo.lzma')):
+            # a writer stands by so that a tool that does open the FIFO for reading gets data and an end of file instead of blocking
+            wr = subprocess.Popen(['sh', '-c', 'exec 2>/dev/null; printf "data from the fifo\\n" > fifo'], cwd=d)
+            try: r = subprocess.run([xz] + fargs + ['fifo'], cwd=d, capture_output=True, stdin=subprocess.DEVNULL, timeout=20); rc = r.returncode
+            except subprocess.TimeoutExpired: rc = -99
+            wr.kill(); wr.wait(); n_eval += 1
+            made = [x for x in os.listdir(d) if x not in ('fifo',) and x.startswith('fif')]
+            if made or rc != 2 or not os.path.exists(os.path.join(d, 'fifo')):
+                viol.append(dict(why='xz %s fifo: exit %d, files created %s, FIFO %s (a non-regular source must be skipped with a warning)' % (' '.join(fargs), rc, made, 'still there' if os.path.exists(os.path.join(d, 'fifo')) else 'REMOVED'), stderr=''))
+            for x in made: os.remove(os.path.join(d, x))
+            if not os.path.exists(os.path.join(d, 'fifo')): os.mkfifo(os.path.join(d, 'fifo'))
         # ---------- permission bits and timestamps (as root: owner/group can be set)
         modes = [0o000, 0o400, 0o600, 0o640, 0o644, 0o664, 0o666, 0o755, 0o777, 0o705, 0o070, 0o007, 0o750] + [rng.randrange(0o1000) for _ in range(10 if ctx.quick() else 200)]
         dm = os.path.join(td, 'modes'); os.mkdir(dm); os.chmod(dm, 0o777)
